@@ -164,11 +164,15 @@ func c11Final(e *driver.Env) {
 	}
 	if p.Stage == "Emit" {
 		freq := planInterval(p)
-		// C11.b: the function is called at most once per tick …
-		for i := 1; i < len(s.Calls.List); i++ {
-			if d := s.Calls.List[i].VT - s.Calls.List[i-1].VT; d < freq {
-				e.Failf("C11.b", "Emit called its function twice within one frequency tick",
-					"frequency %v: calls %d and %d at %v and %v", freq, i-1, i, s.Calls.List[i-1].VT, s.Calls.List[i].VT)
+		// C11.b: the function is called at most once per tick: by the time the
+		// call with index i happens, i+1 ticks have elapsed. (Deliberately not
+		// "two calls are at least one frequency apart": an emitter driven by a
+		// ticker may serve a tick late, after back-pressure, and the next one
+		// on time — still one call per tick.)
+		for i, c := range s.Calls.List {
+			if c.VT < time.Duration(i+1)*freq {
+				e.Failf("C11.b", "Emit called its function more than once per frequency tick",
+					"frequency %v: call number %d at %v, before %d ticks had elapsed", freq, i+1, c.VT, i+1)
 				return
 			}
 		}
